@@ -186,7 +186,7 @@ Qed.
 Lemma shape_tet_add_cell s hfs chk : tet_shape s -> tet_shape (fst (tet_add_cell s hfs chk)).
 Proof.
   intros K. unfold tet_add_cell. destruct (Nat.eqb_spec (length hfs) 4) as [E|E]; cbn [negb]; [|exact K].
-  destruct (negb (forallb _ hfs)); [exact K|]. apply kshape_add_cell; assumption.
+  destruct (negb (forallb _ hfs)); [exact K|]. destruct (chk && negb (_ =? 4)); [exact K|]. apply kshape_add_cell; assumption.
 Qed.
 
 Lemma fc_tet_add_halfedge s a b : same_fc s (fst (tet_add_halfedge s a b)).
@@ -269,7 +269,7 @@ Lemma dfl_tet_add_face s hes chk : deferred (fst (tet_add_face s hes chk)) = def
 Proof. unfold tet_add_face. destruct (negb _); [reflexivity | apply dfl_add_face]. Qed.
 
 Lemma dfl_tet_add_cell s hfs chk : deferred (fst (tet_add_cell s hfs chk)) = deferred s.
-Proof. unfold tet_add_cell. destruct (negb _); [reflexivity|]. destruct (negb _); [reflexivity | apply dfl_add_cell]. Qed.
+Proof. unfold tet_add_cell. destruct (negb _); [reflexivity|]. destruct (negb _); [reflexivity|]. destruct (_ && _); [reflexivity | apply dfl_add_cell]. Qed.
 
 Lemma dfl_tet_add_halfface s hes chk : deferred (fst (tet_add_halfface s hes chk)) = deferred s.
 Proof.
@@ -1011,7 +1011,7 @@ Proof.
   pose proof (fast_add_face s hes chk) as H. destruct (add_face s hes chk). exact H.
 Qed.
 Lemma fast_tet_add_cell s hfs chk : fast (fst (tet_add_cell s hfs chk)) = fast s.
-Proof. unfold tet_add_cell. destruct (negb _); [reflexivity|]. destruct (negb _); [reflexivity | apply fast_add_cell]. Qed.
+Proof. unfold tet_add_cell. destruct (negb _); [reflexivity|]. destruct (negb _); [reflexivity|]. destruct (_ && _); [reflexivity | apply fast_add_cell]. Qed.
 
 Lemma fast_dstep s t a b c d : dstep s t a b c d -> fast t = fast s.
 Proof. intros (_&_&_&_&_&_&_&_&_&_&_&_&(_&_&_&_&F)&_). exact F. Qed.
@@ -1234,30 +1234,64 @@ Example inside_history_with_removals :
   inside_along empty_mesh ops /\ nc (tet_run ops) = 1 /\ nf (tet_run ops) = 4.
 Proof. vm_compute. repeat split. Qed.
 
-(* ================================================================== 9. the FULL shape statement is refuted *)
+(* ================================================================== 9. four distinct vertices *)
 
 (* the property's shape: valences AND every live cell on exactly four distinct vertices *)
 Definition cell_vertex_set (s : mesh) (c : nat) : list nat := set_of_list (flat_map (hf_vertices s) (cell_at s c)).
 Definition tet_shape_full (s : mesh) : Prop :=
   tet_shape s /\ forall c, live_c s c = true -> length (cell_vertex_set s c) = 4.
 
-(* two "pillows" (two faces on the same three halfedges each): four triangular halffaces, twelve halfedges on six
-   edges, each used once in each direction - the topology check of add_cell accepts the list, the cell has SIX
-   vertices.  Only additions are used. *)
+Lemma edges_reorder_edges es : forall s, edges (reorder_edges es s) = edges s.
+Proof.
+  unfold reorder_edges. induction es as [|e es IH]; intros s; [reflexivity|]. simpl. rewrite IH.
+  unfold reorder_incident_halffaces. destruct (reorder_list s e); reflexivity.
+Qed.
+
+Lemma edges_append_cell s hfs : edges (fst (append_cell s hfs)) = edges s.
+Proof.
+  unfold append_cell. cbv zeta.
+  match goal with |- context [if fbu ?x then _ else _] => destruct (fbu x) end; cbn [fst]; [|reflexivity].
+  match goal with |- context [if ebu ?x then _ else _] => destruct (ebu x) end; [rewrite edges_reorder_edges|]; reflexivity.
+Qed.
+
+Lemma hf_vertices_same s t hf : faces t = faces s -> edges t = edges s -> hf_vertices t hf = hf_vertices s hf.
+Proof.
+  intros F E. unfold hf_vertices, halfface, face_at. rewrite F. apply map_ext. intros h. unfold he_from, edge_at. rewrite E. reflexivity.
+Qed.
+
+(* a cell accepted by the topology-checked add_cell(halffaces) has exactly four distinct vertices (fix "checked tet
+   add_cell must reject four triangles that are not a tetrahedron") *)
+Theorem tet_add_cell_checked_four_vertices s hfs s' c : tet_add_cell s hfs true = (s', Some c) ->
+  c = nc s /\ cell_at s' c = hfs /\ length hfs = 4 /\ length (cell_vertex_set s' c) = 4.
+Proof.
+  unfold tet_add_cell. destruct (Nat.eqb_spec (length hfs) 4) as [L|L]; cbn [negb]; [|discriminate].
+  destruct (negb (forallb _ hfs)); [discriminate|]. cbn [andb].
+  destruct (Nat.eqb_spec (length (hfs_vertex_set s hfs)) 4) as [V|V]; cbn [negb]; [|discriminate].
+  unfold add_cell. destruct (true && negb (cell_check s hfs)); [discriminate|].
+  destruct (fc_append_cell s hfs) as (a&b&_). pose proof (edges_append_cell s hfs) as e.
+  assert (R : snd (append_cell s hfs) = nc s) by (unfold append_cell; cbv zeta; destruct (fbu _); reflexivity).
+  destruct (append_cell s hfs) as [s1 c1]. cbn [fst snd] in *. intros H. inversion H; subst s1 c1. subst c.
+  assert (X : cell_at s' (nc s) = hfs) by (unfold cell_at, nc; rewrite b, app_nth2, Nat.sub_diag by lia; reflexivity).
+  repeat split; try assumption. unfold cell_vertex_set. rewrite X. unfold hfs_vertex_set in V. rewrite <- V. do 2 f_equal.
+  apply flat_map_ext. intros hf. apply hf_vertices_same; assumption.
+Qed.
+
+(* the former counterexample (two "pillows": four triangles, six vertices) is now rejected, the mesh unchanged *)
 Definition two_pillows : list top :=
   [TK (AddVertices 6);
    TK (AddFaceV [0; 1; 2]); TK (AddFace [0; 2; 4] false);
-   TK (AddFaceV [3; 4; 5]); TK (AddFace [6; 8; 10] false);
-   TK (AddCell [0; 3; 4; 7] true)].
+   TK (AddFaceV [3; 4; 5]); TK (AddFace [6; 8; 10] false)].
 
-Lemma tet_shape_full_refuted :
-  exists ops, inside_along empty_mesh ops /\ (exists c, tet_step (tet_run (removelast ops)) (last ops (TK AddVertex)) = TOk (tet_run ops) (Some c)) /\
-              ~ tet_shape_full (tet_run ops).
+Example two_pillows_rejected :
+  tet_step (tet_run two_pillows) (TK (AddCell [0; 3; 4; 7] true)) = TOk (tet_run two_pillows) None /\
+  cell_check (tet_run two_pillows) [0; 3; 4; 7] = true.
+Proof. vm_compute. split; reflexivity. Qed.
+
+(* the full statement "every cell has four distinct vertices after any sequence of additions" remains false for the
+   UNCHECKED add_cell(halffaces), which stores whatever four triangles it is given (here: one halfface four times) *)
+Lemma tet_shape_full_unchecked_refuted :
+  exists ops, inside_along empty_mesh ops /\ ~ tet_shape_full (tet_run ops).
 Proof.
-  exists two_pillows. split; [vm_compute; repeat split|]. split; [exists 0; vm_compute; reflexivity|].
-  intros [_ H]. specialize (H 0 eq_refl). vm_compute in H. discriminate.
+  exists [TK (AddVertices 3); TK (AddFaceV [0; 1; 2]); TK (AddCell [0; 0; 0; 0] false)].
+  split; [vm_compute; repeat split|]. intros [_ H]. specialize (H 0 eq_refl). vm_compute in H. discriminate.
 Qed.
-
-Example two_pillows_cell : cell_vertex_set (tet_run two_pillows) 0 = [0; 1; 2; 3; 4; 5] /\ tet_shape (tet_run two_pillows).
-Proof. split; [vm_compute; reflexivity | apply tet_shape_run; vm_compute; repeat split]. Qed.
-
